@@ -197,6 +197,14 @@ func c06(r *core.Run) {
 	c06Registration(r, root, ro)
 
 	// ---- R4 --------------------------------------------------------------
+	c06MatchAssembly(r, "R4", root, ro)
+}
+
+// c06MatchAssembly holds the obligations of C06.R4; C01 re-uses them (rule
+// F3) because the group id of a request is computed from the assembled record.
+func c06MatchAssembly(r *core.Run, rule string, root []*ssa.Function, ro *muxRoles) {
+	p := r.P
+	mn := ro.matchNode
 	nmN, nmMI, nmP := ro.nmNode, ro.nmMountIdx, ro.nmParams
 	storesIn := func(b *ssa.BasicBlock, f core.Field) []*ssa.Store {
 		var out []*ssa.Store
@@ -238,18 +246,18 @@ func c06(r *core.Run) {
 					}
 					// sites without params loop are fine only if none exists below
 				}
-				r.Check(good && rebOK, "R4", core.FuncName(fn), "accept-site-writes-node+mountIdx:"+valDesc(st.Val), p.InstrPos(st),
+				r.Check(good && rebOK, rule, core.FuncName(fn), "accept-site-writes-node+mountIdx:"+valDesc(st.Val), p.InstrPos(st),
 					"the match record's node and mount index are written together and the params are rebased with that same mount index", fmt.Sprintf("accept site stores the node without (exactly one) mount index store next to it (%d), or rebases params with a different value (sameValue=%v): after backtracking out of a mount the record would carry a stale mount index", len(ms), rebOK))
 			}
 			for _, st := range ms {
 				if len(ns) == 0 {
-					r.Bad("R4", core.FuncName(fn), "mountIdx-written-away-from-accept", p.InstrPos(st), "the match record's mount index is written on the way down, not at the accept site: backtracking does not restore it")
+					r.Bad(rule, core.FuncName(fn), "mountIdx-written-away-from-accept", p.InstrPos(st), "the match record's mount index is written on the way down, not at the accept site: backtracking does not restore it")
 				}
 			}
 			_ = nmP
 		}
 	}
-	r.Check(nAccept >= 2, "R4", "matchNode", "accept-sites", p.Pos(mn.Pos()), fmt.Sprintf("%d accept sites", nAccept), "fewer than two accept sites (leaf and wildcard)")
+	r.Check(nAccept >= 2, rule, "matchNode", "accept-sites", p.Pos(mn.Pos()), fmt.Sprintf("%d accept sites", nAccept), "fewer than two accept sites (leaf and wildcard)")
 	// Match literals
 	for _, fn := range methodsOf(p, "", "Mux") {
 		if fn.Name() != "GetHandler" {
@@ -277,7 +285,7 @@ func c06(r *core.Run) {
 									// second argument: tokens re-sliced at the record's mount index (or nil for the root)
 									if sl, ok := c.Common().Args[2].(*ssa.Slice); ok {
 										lf, lok := core.LoadedField(sl.Low)
-										r.Check(lok && lf == nmMI, "R4", core.FuncName(fn), "group-tokens-rebased-at-record-mountIdx", p.InstrPos(c), "group tags are evaluated on tokens[record.mountIdx:]", "group tags are evaluated on tokens re-sliced at "+valDesc(sl.Low))
+										r.Check(lok && lf == nmMI, rule, core.FuncName(fn), "group-tokens-rebased-at-record-mountIdx", p.InstrPos(c), "group tags are evaluated on tokens[record.mountIdx:]", "group tags are evaluated on tokens re-sliced at "+valDesc(sl.Low))
 									}
 								} else {
 									src[f.Name] = fieldChain(v, 0)
@@ -292,9 +300,9 @@ func c06(r *core.Run) {
 				lb := base(src["Listeners"], ">"+ro.nodeListeners.String())
 				gb := base(strings.TrimSuffix(strings.TrimPrefix(src["Group"], "toString("), ")"), ">"+ro.nodeHs.String()+">"+ro.rhGroup.String())
 				same := hb != "" && hb == lb && hb == gb && hb != src["Handler"]
-				r.Check(same, "R4", core.FuncName(fn), "Match{Handler,Listeners,Group}-from-one-node:"+hb, p.InstrPos(al), "all three come from node "+hb, fmt.Sprintf("Match is assembled from different nodes: Handler<-%s Listeners<-%s Group<-%s", src["Handler"], src["Listeners"], src["Group"]))
+				r.Check(same, rule, core.FuncName(fn), "Match{Handler,Listeners,Group}-from-one-node:"+hb, p.InstrPos(al), "all three come from node "+hb, fmt.Sprintf("Match is assembled from different nodes: Handler<-%s Listeners<-%s Group<-%s", src["Handler"], src["Listeners"], src["Group"]))
 				if strings.Contains(hb, nmN.String()) {
-					r.Check(strings.HasSuffix(src["Params"], nmP.String()), "R4", core.FuncName(fn), "Match.Params<-record.params", p.InstrPos(al), "path parameters come from the match record", "Match.Params is fed from "+src["Params"])
+					r.Check(strings.HasSuffix(src["Params"], nmP.String()), rule, core.FuncName(fn), "Match.Params<-record.params", p.InstrPos(al), "path parameters come from the match record", "Match.Params is fed from "+src["Params"])
 				}
 			}
 		}
@@ -545,13 +553,15 @@ type muxRoles struct {
 	matchNode, fetch, add, setParams, parseGroup, toString            *ssa.Function
 }
 
-func resolveMuxRoles(r *core.Run) *muxRoles {
+func resolveMuxRoles(r *core.Run) *muxRoles { return resolveMuxRolesFor(r, "R1") }
+
+func resolveMuxRolesFor(r *core.Run, roleRule string) *muxRoles {
 	p := r.P
 	ro := &muxRoles{}
 	ok := true
 	need := func(f core.Field, found bool, what string) core.Field {
 		if !found {
-			r.Unres("R1", what, "role not resolvable (0 or several candidates)")
+			r.Unres(roleRule, what, "role not resolvable (0 or several candidates)")
 			ok = false
 		}
 		return f
@@ -596,7 +606,7 @@ func resolveMuxRoles(r *core.Run) *muxRoles {
 	one := func(what string, pred func(*ssa.Function) bool) *ssa.Function {
 		fs := funcsWhere(p, "", pred)
 		if len(fs) != 1 {
-			r.Unres("R1", what, fmt.Sprintf("%d candidates", len(fs)))
+			r.Unres(roleRule, what, fmt.Sprintf("%d candidates", len(fs)))
 			ok = false
 			return nil
 		}
@@ -693,7 +703,7 @@ func resolveMuxRoles(r *core.Run) *muxRoles {
 				}
 			}
 		} else {
-			r.Unres("R1", "node.param/node.wild", fmt.Sprintf("candidates %v wild=%q", cands, wild))
+			r.Unres(roleRule, "node.param/node.wild", fmt.Sprintf("candidates %v wild=%q", cands, wild))
 			ok = false
 		}
 	}
